@@ -166,6 +166,15 @@ impl Peer {
     }
   }
 
+  fn set_lease(&mut self, lease: Lease) {
+    self.lease = lease;
+    self.lease_ns = match lease {
+      Lease::Absent => Some(100 * SEC),
+      Lease::Millis(ms) => Some(ms as u64 * MS),
+      Lease::Infinite => None,
+    };
+  }
+
   fn announce(&mut self, fresh: bool, unicast: bool) {
     // a re-sent announcement is the latest change of the SPDP writer once more; after a
     // dispose (or before the first announcement) there is nothing to re-send
@@ -574,9 +583,9 @@ fn body() -> Check {
   w.pass(phase + 50 * MS)?;
 
   let steps = 3 + ch(|c| c.draw(12));
-  let l_ns = w.peers[0].lease_ns.unwrap_or(10 * SEC);
   let mut ops = String::new();
   for _ in 0..steps {
+    let l_ns = w.peers[0].lease_ns.unwrap_or(10 * SEC);
     if simcore::now_ns() < w.last_action + 3 * MS {
       w.pass(3 * MS)?;
     }
@@ -585,6 +594,23 @@ fn body() -> Check {
     match ch(|c| c.weighted(&[5, 6, 2, 1, if can_sedp { 6 } else { 0 }])) {
       0 => {
         let unicast = ch(|c| c.flag());
+        // a participant may advertise another lease with a new announcement; the latest one counts
+        if w.peers[0].spdp_sn > 0 && ch(|c| c.chance(1, 5)) {
+          let nl = ch(|c| {
+            *c.pick(&[
+              Lease::Millis(3000),
+              Lease::Millis(1000),
+              Lease::Millis(500),
+              Lease::Millis(10_000),
+              Lease::Millis(30_000),
+              Lease::Infinite,
+            ])
+          });
+          w.peers[0].set_lease(nl);
+          e2::log(&format!("B changes its lease to {nl:?}"));
+          e2::count("op.lease_changed");
+          ops.push('l');
+        }
         w.peers[0].announce(true, unicast);
         ops.push('a');
       }
